@@ -59,15 +59,29 @@ def check_batches(rec: dict, v: list) -> None:
                           f'next() woke with an empty batch: {x[2]}'))
 
 
+AWAIT_CANCELLED = 'Cannot await on a canceled task'
+
+
+def awaits_cancelled(tree: Any) -> bool:
+    if isinstance(tree, list):
+        if len(tree) == 3 and tree[0] == 'cancel' and tree[2] is True:
+            return True
+        return any(awaits_cancelled(x) for x in tree)
+    return False
+
+
 def common_failures(spec: dict, rec: dict, v: list,
                     expected_tags: set) -> None:
     """Errors nobody raised: thread deaths, ERROR messages."""
+    if any(awaits_cancelled(op) for sc in spec['clients'] for op in sc):
+        expected_tags = set(expected_tags) | {AWAIT_CANCELLED}
     for name, tb in rec['thread_errors']:
         kind = name.split('.')[-1]
         v.append((f'thread-died:{kind}:{tb_signature(tb)}',
                   f'thread {name} died: {tb[-600:]}'))
     for lab, text in rec['errors_sent']:
-        if any(f'boom-{t}' in text for t in expected_tags):
+        if any(f'boom-{t}' in text or t == AWAIT_CANCELLED and t in text
+               for t in expected_tags):
             continue
         v.append((f'unraised-error:{tb_signature(text)}',
                   f'ERROR message on {lab} that no task body raised: '
@@ -200,6 +214,17 @@ def judge_c12(spec: dict, rec: dict, fault: Any) -> list:
     cancelled_roots = spec.get('cancelled_slots', {})
     for c, op, ev in client_ops(spec, rec):
         if ev is None:
+            continue
+        if op[0] == 'compile' and awaits_cancelled(op[1]):
+            # "awaiting it fails": the failure surfaces as the error of the
+            # compilation (the worker loop raises, not the coroutine)
+            if ev[2] == 'ok':
+                v.append(('await-of-cancelled-future-did-not-fail',
+                          f'{c} got {ev[3]!r} from a tree that awaits a '
+                          'cancelled future'))
+            elif AWAIT_CANCELLED not in ev[4]:
+                v.append((f'client-got-error:{op[0]}:{tb_signature(ev[4])}',
+                          f'{c} {op[0]} raised {ev[3]}: {ev[4][-500:]}'))
             continue
         if ev[2] == 'exc' and op[0] != 'close':
             if op[0] == 'result' and [c, op[1]] in spec.get(
